@@ -26,6 +26,7 @@ ASSUMPTIONS = [
     'the .p8 paths supply a final newline; the comparison accounts for exactly that one byte',
 ]
 EXHAUSTIVE = {'quick': False, 'thorough': False}
+PYOPT_KINDS = ('programs',)
 KNOWN_KEYS = {'nul-escape-before-digit', 'hex-escape'}
 
 
